@@ -46,6 +46,13 @@ def reconn_scenarios(tier, rng):
                opts=dict(opts, pingMs=60))
         sc["reqs"] = [{"k": "ping", "ms": 3, "at": "conn"}] + sc["reqs"]
         out.append(sc)
+    # a slow but living peer: every PINGRESP comes 25 ms after its PINGREQ -- later than the next ping is due (interval
+    # 10 ms) but well within the configured response timeout (250 ms): "keeps running as long as each response arrives
+    # within the timeout"
+    for j in range(2 if tier == "quick" else 10):
+        sc = S("ka-slow%d" % j, [P(1)], ["conn"], [{"p": "PINGREQ", "n": k, "o": "lateAck"} for k in range(1, 12)],
+               opts=dict(opts, pingMs=10, connTimeoutMs=250, quietMs=200))
+        out.append(sc)
     # the application pings too (Client.Ping is part of the public interface): PINGRESPs carry no identifier,
     # and every ping of the keep-alive loop must still get its response while the broker answers every PINGREQ
     for j in range(3 if tier == "quick" else 20):
